@@ -2,6 +2,7 @@ package main
 
 import (
 	"fmt"
+	"regexp"
 	"math/big"
 	"strings"
 )
@@ -11,6 +12,10 @@ import (
 // remembers how many lines precede it, so its query is "prefix + (not goal)".
 type Ctx struct {
 	lines []string
+	tags  []int32  // per line: 0 = always included, else the block visit that emitted it
+	cur   int32    // current block visit
+	nvis  int32
+	curHist *big.Int // history (set of block visits) of the state being executed
 	n     int
 	cons  map[string]string // hash-consing: "sort|expr" -> name
 	obls  []*Obl
@@ -57,21 +62,38 @@ type Obl struct {
 	Bounded string // non-empty: bounded obligation, with the bound
 	rootFn  string
 	extra   []string // skolem constants and hypothesis instances for a quantified goal
+	hist    *big.Int // block visits that can precede this obligation; nil = everything
+	hasQuant bool
 }
 
 func newCtx() *Ctx {
 	c := &Ctx{cons: map[string]string{}, maxv: map[string]*big.Int{}, lowz: map[string]int{}, decls: map[string]bool{}, reps: map[string]sliceRep{}, splits: map[string][2]chunk{}, refine: map[string]sliceRep{}, uOf: map[string]string{}, quants: map[string]*quantInfo{}, defs: map[string]string{}}
-	c.lines = append(c.lines,
-		"(define-sort HP () (Array Int (Array Int Int)))",
-		"(declare-fun tag (Int) Int)",
-		"(declare-fun wraps (Int) Int)")
+	for _, l := range []string{"(define-sort HP () (Array Int (Array Int Int)))", "(declare-fun tag (Int) Int)", "(declare-fun wraps (Int) Int)"} {
+		c.emit(l, false)
+	}
 	return c
+}
+
+// emit appends a line. Scoped lines belong to the block visit being executed
+// and are left out of queries whose state cannot have passed through it.
+func (c *Ctx) emit(line string, scoped bool) {
+	c.lines = append(c.lines, line)
+	if scoped {
+		c.tags = append(c.tags, c.cur)
+	} else {
+		c.tags = append(c.tags, 0)
+	}
+}
+
+func (c *Ctx) newVisit() int32 {
+	c.nvis++
+	return c.nvis
 }
 
 func (c *Ctx) fresh(sort, hint string) string {
 	c.n++
 	name := fmt.Sprintf("%s!%d", sanitize(hint), c.n)
-	c.lines = append(c.lines, fmt.Sprintf("(declare-const %s %s)", name, sort))
+	c.emit(fmt.Sprintf("(declare-const %s %s)", name, sort), false)
 	return name
 }
 
@@ -81,7 +103,7 @@ func (c *Ctx) declareFun(name string, nargs int, ret string) {
 	}
 	c.decls[name] = true
 	args := strings.TrimSpace(strings.Repeat("Int ", nargs))
-	c.lines = append(c.lines, fmt.Sprintf("(declare-fun %s (%s) %s)", name, args, ret))
+	c.emit(fmt.Sprintf("(declare-fun %s (%s) %s)", name, args, ret), false)
 }
 
 func (c *Ctx) declareConst(name, sort string, extra ...string) {
@@ -89,8 +111,10 @@ func (c *Ctx) declareConst(name, sort string, extra ...string) {
 		return
 	}
 	c.decls[name] = true
-	c.lines = append(c.lines, fmt.Sprintf("(declare-const %s %s)", name, sort))
-	c.lines = append(c.lines, extra...)
+	c.emit(fmt.Sprintf("(declare-const %s %s)", name, sort), false)
+	for _, x := range extra {
+		c.emit(x, false)
+	}
 }
 
 func sanitize(s string) string {
@@ -104,7 +128,43 @@ func sanitize(s string) string {
 
 func isAtom(e string) bool { return !strings.HasPrefix(e, "(") }
 
+var foldRe = regexp.MustCompile(`^\((\+|-|\*) (\d+) (\d+)\)$`)
+var addZeroRe = regexp.MustCompile(`^\(\+ (\S+) 0\)$|^\(\+ 0 (\S+)\)$|^\(\* (\S+) 1\)$|^\(- (\S+) 0\)$`)
+
+// fold: constant folding of the simplest integer shapes (keeps literals literal,
+// which lets later stages drop empty copies and recognise constant offsets).
+func fold(expr string) string {
+	if m := foldRe.FindStringSubmatch(expr); m != nil {
+		a, _ := new(big.Int).SetString(m[2], 10)
+		b, _ := new(big.Int).SetString(m[3], 10)
+		var r *big.Int
+		switch m[1] {
+		case "+":
+			r = new(big.Int).Add(a, b)
+		case "-":
+			r = new(big.Int).Sub(a, b)
+		default:
+			r = new(big.Int).Mul(a, b)
+		}
+		return lit(r)
+	}
+	if m := addZeroRe.FindStringSubmatch(expr); m != nil {
+		for _, g := range m[1:] {
+			if g != "" && !strings.ContainsAny(g, "()") {
+				return g
+			}
+		}
+	}
+	if strings.HasPrefix(expr, "(* ") && (strings.HasSuffix(expr, " 0)") || strings.HasPrefix(expr, "(* 0 ")) && strings.Count(expr, "(") == 1 {
+		return "0"
+	}
+	return expr
+}
+
 func (c *Ctx) def(sort, expr string) string {
+	if sort == "Int" {
+		expr = fold(expr)
+	}
 	if isAtom(expr) || c.raw > 0 {
 		return expr
 	}
@@ -114,7 +174,7 @@ func (c *Ctx) def(sort, expr string) string {
 	}
 	c.n++
 	name := fmt.Sprintf("t!%d", c.n)
-	c.lines = append(c.lines, fmt.Sprintf("(define-fun %s () %s %s)", name, sort, expr))
+	c.emit(fmt.Sprintf("(define-fun %s () %s %s)", name, sort, expr), false)
 	c.cons[key] = name
 	c.defs[name] = expr
 	return name
@@ -141,9 +201,9 @@ func (c *Ctx) assume(pc, cond string) {
 		return
 	}
 	if pc == "true" {
-		c.lines = append(c.lines, fmt.Sprintf("(assert %s)", cond))
+		c.emit(fmt.Sprintf("(assert %s)", cond), true)
 	} else {
-		c.lines = append(c.lines, fmt.Sprintf("(assert (=> %s %s))", pc, cond))
+		c.emit(fmt.Sprintf("(assert (=> %s %s))", pc, cond), true)
 	}
 }
 
@@ -153,6 +213,9 @@ func (c *Ctx) oblige(o *Obl, pc, cond string) *Obl {
 	o.at = len(c.lines)
 	o.goal = fmt.Sprintf("(=> %s %s)", pc, cond)
 	o.ctx = c
+	if c.curHist != nil {
+		o.hist = new(big.Int).Set(c.curHist)
+	}
 	c.skolemize(o, pc, cond)
 	if o.Expect == "" {
 		o.Expect = "unsat"
